@@ -284,7 +284,9 @@ def run(ctx):
         else:
             ok = False
             ig = IG(fn, inline=lambda a, b, c: False)
-            for n_ in L.call_nodes(ig, name="deallocate"):
+            live_ = ig.live_nodes()
+            deallocs = list(L.call_nodes(ig, name="deallocate", live=live_))
+            for n_ in deallocs:
                 th = strip_cast(n_.ev.get("this"))
                 os_ = ig.origins(ig.rarg(n_, 0))
                 # deallocate() only uses id.value (it overwrites the version), so `_value` and `_value.value` are both fine
@@ -298,8 +300,11 @@ def run(ctx):
                         len(ig.ev_of(os_[0]).ev.get("args", [])) == 1:
                     os_ = ig.origins(ig.rarg(ig.ev_of(os_[0]), 0))
                 ok = bool(os_) and all(own_value(o) for o in os_) and isinstance(th, dict) and th.get("n") == "_allocator"
+            # ... on every path, in every flavour: the dead arm of `if (!Leaky)` is not a path (after seed C14-5)
+            ok = ok and bool(deallocs) and ig.exit.id not in ig.reach([ig.entry], removed=deallocs)
             ctx.ob("C14.R5b", L.short(fn), ok, fn.loc,
-                   "thread id destructor must return exactly its own _value to its _allocator")
+                   "thread id destructor must return exactly its own _value to its _allocator, on every path and in every flavour "
+                   "(a leaky thread id leaks the allocator singleton, not the ids of threads that exit)")
 
 
     thread_id_instance_agreement(ctx, "C14.R5c", fb)
